@@ -123,3 +123,13 @@ package cluster
 //@   ensures [at-most-one-put] count("PutRegion") <= 1
 //@   loop 6 invariant count("DeleteRegion") == rangeindex + 1
 //@   modifies *
+
+// Every writer of the region cache in this package holds the cluster lock (at least shared) while it writes, so
+// nothing changes between the re-validation and the put of a heartbeat, which holds it exclusively.
+//@ func (*RaftCluster).DropCacheRegion
+//@   props C06
+//@   requires c != nil && c.core != nil && cacheOK(c.core.Regions)
+//@   at RemoveRegion 1 assert [writers-hold-the-cluster-lock] rheld(c.RWMutex) && recv == c.core
+//@   ensures [keeps-cache-ok] cacheOK(c.core.Regions)
+//@   ensures [dropped] !in(c.core.Regions.regions, id)
+//@   modifies c.core.Regions.regions[*], all core.regionTree.totalSize, ghost bthas
